@@ -59,8 +59,8 @@ Qed.
 (* the generic decoder on a spec-encoded stream of runs inside its proved region, handed the caller's allocation of
    n items of `a` bytes: Ok, exactly min(total, n) values - the spec values cut to the item - and never more bytes
    written than the allocation holds (whatever n is) *)
-Theorem generic_leaf_correct w selfmade a isz n rs :
-  adequate w selfmade (DGeneric a isz) = true ->
+Theorem generic_leaf_correct w selfmade one_run a isz n rs :
+  adequate w selfmade one_run (DGeneric a isz) = true ->
   Forall (irun_ok w isz) rs -> rs <> [] ->
   exists r, c_read_hybrid (hyb_enc w rs) w (lenN (hyb_enc w rs)) (n * a) isz = Ok r /\
             d_vals r = map (tr isz) (firstn (N.to_nat (N.min (lenN (allvals rs)) n)) (allvals rs)) /\
@@ -81,13 +81,13 @@ Proof.
   rewrite N.mul_comm. apply N.mul_le_mono_r. apply N.le_min_r.
 Qed.
 
-Theorem generic_leaf_values w selfmade a isz rs :
-  adequate w selfmade (DGeneric a isz) = true ->
+Theorem generic_leaf_values w selfmade one_run a isz rs :
+  adequate w selfmade one_run (DGeneric a isz) = true ->
   Forall (irun_ok w isz) rs -> rs <> [] ->
   run_idec (DGeneric a isz) w (hyb_enc w rs) (lenN (allvals rs)) = Some (map (tr isz) (allvals rs)).
 Proof.
   intros Had Hrs Hne.
-  destruct (generic_leaf_correct w selfmade a isz (lenN (allvals rs)) rs Had Hrs Hne) as [r [E [Hv _]]].
+  destruct (generic_leaf_correct w selfmade one_run a isz (lenN (allvals rs)) rs Had Hrs Hne) as [r [E [Hv _]]].
   unfold run_idec. rewrite E, Hv, N.min_id, lenN_ok, Nat2N.id, firstn_all. reflexivity.
 Qed.
 
@@ -124,35 +124,74 @@ Qed.
 
 (* soundness of the boolean predicate used by the regenerated proofs *)
 Lemma dispatch_adequate_spec f : dispatch_adequate f = true ->
-  forall w selfmade, w <= 32 -> adequate w selfmade (f w selfmade) = true.
+  forall w selfmade one_run, w <= 32 -> adequate w selfmade one_run (f w selfmade one_run) = true.
 Proof.
-  unfold dispatch_adequate. intros H w sm Hw. rewrite forallb_forall in H.
+  unfold dispatch_adequate, all_flags. intros H w sm one Hw. rewrite forallb_forall in H.
   assert (Hin : In w widths_0_32).
   { unfold widths_0_32. apply in_map_iff. exists (N.to_nat w). split; [apply N2Nat.id|].
     apply in_seq. lia. }
-  specialize (H w Hin). apply andb_prop in H. destruct H as [H1 H2]. destruct sm; assumption.
+  specialize (H w Hin). repeat (apply andb_prop in H; destruct H as [H ?]).
+  destruct sm, one; assumption.
 Qed.
 
-(* an adequate dispatch never sends an own page (one bit-packed run of whole bytes, unpadded, up to 32 bits) to the
-   generic decoder, never sends a width to a decoder whose item is too small, never allocates another item size
-   than the one it tells the decoder *)
-Theorem adequate_facts w selfmade d : adequate w selfmade d = true ->
+(* an adequate dispatch sends a page to the array view exactly when it is marked self-made, of a whole-byte width and ONE
+   bit-packed run; never sends a width to a decoder whose item is too small, never allocates another item size than the
+   one it tells the decoder *)
+Theorem adequate_facts w selfmade one_run d : adequate w selfmade one_run d = true ->
   match d with
-  | DFast => selfmade = true /\ own_width w = true
-  | DGeneric a isz => a = isz /\ (isz = 1 \/ isz = 4) /\ 0 < w <= 8 * isz /\ (selfmade = true -> own_width w = false)
+  | DFast => selfmade = true /\ own_width w = true /\ one_run = true
+  | DGeneric a isz => a = isz /\ (isz = 1 \/ isz = 4) /\ 0 < w <= 8 * isz /\ takes_view w selfmade one_run = false
   | DZeros => w = 0
   | DNone => False
   end.
 Proof.
   destruct d; cbn [adequate]; intros H.
-  - apply andb_prop in H. exact H.
+  - unfold takes_view in H. repeat (apply andb_prop in H; destruct H as [H ?]). auto.
   - repeat (apply andb_prop in H; destruct H as [H ?]).
     apply N.eqb_eq in H.
     repeat split; try assumption.
     + match goal with H : (_ || _)%bool = true |- _ => apply orb_prop in H; destruct H as [H|H]; apply N.eqb_eq in H; auto end.
     + match goal with H : (0 <? w) = true |- _ => apply N.ltb_lt in H; exact H end.
     + match goal with H : (w <=? _) = true |- _ => apply N.leb_le in H; exact H end.
-    + intros ->. match goal with H : negb _ = true |- _ => cbn [andb] in H; apply negb_true_iff in H; exact H end.
+    + match goal with H : negb _ = true |- _ => apply negb_true_iff in H; exact H end.
   - apply N.eqb_eq in H. exact H.
   - discriminate.
+Qed.
+
+(* the signed array view returns a stored whole-byte index unchanged EXACTLY when its top bit is clear: the encoder must keep
+   the codes inside the signed range of the width it announces (pandas' code dtypes do; an unsigned narrowing does not) *)
+Theorem signed_view_exact k v : (1 <= k)%nat -> v < 2 ^ (8 * N.of_nat k) ->
+  (signed_view k v = Z.of_N v <-> v < 2 ^ (8 * N.of_nat k - 1)).
+Proof.
+  intros Hk Hv. unfold signed_view.
+  destruct (N.ltb_spec v (2 ^ (8 * N.of_nat k - 1))) as [L|L].
+  - split; [intros _; exact L | reflexivity].
+  - split; [|lia]. intros E.
+    assert (0 < 2 ^ (8 * Z.of_nat k))%Z by (apply Z.pow_pos_nonneg; lia). lia.
+Qed.
+
+Lemma signed_view_high_bit_refuted : exists v, v < 2 ^ 8 /\ signed_view 1 v <> Z.of_N v.
+Proof. exists 128. split; [reflexivity|]. vm_compute. discriminate. Qed.
+
+(* ... also when the run holds MORE values than the page has (a last group padded to 8 values, as the format asks for and as
+   other writers - or a file merely naming fastparquet - lay it out): the view keeps the first n *)
+Lemma fixed_enc_app k a b : fixed_enc k (a ++ b) = fixed_enc k a ++ fixed_enc k b.
+Proof. unfold fixed_enc. rewrite map_app, concat_app. reflexivity. Qed.
+
+Theorem fast_leaf_prefix k h vals extra :
+  (k = 1 \/ k = 2 \/ k = 4)%nat -> h < 2 ^ 64 ->
+  Forall (fun v => v < 256 ^ N.of_nat k) vals ->
+  fast_read (8 * N.of_nat k) (uleb_enc h ++ fixed_enc k (vals ++ extra)) (N.of_nat (length vals)) = Some vals.
+Proof.
+  intros Hk Hh Hvs. unfold fast_read.
+  rewrite varint_reads_spec_encoding by (try exact Hh; apply fixed_enc_ok).
+  rewrite dropN_ok, Nat2N.id, skipn_app, Nat.sub_diag, skipn_all. cbn [skipn app].
+  replace (8 * N.of_nat k / 8) with (N.of_nat k) by (rewrite N.mul_comm, N.div_mul; lia).
+  destruct (N.of_nat k =? 0) eqn:E0; [apply N.eqb_eq in E0; lia|].
+  rewrite lenN_ok, fixed_enc_length, app_length.
+  replace (N.of_nat (k * (length vals + length extra)) / N.of_nat k) with (N.of_nat (length vals + length extra))
+    by (rewrite Nat2N.inj_mul, N.mul_comm, N.div_mul; lia).
+  replace (N.min (N.of_nat (length vals)) (N.of_nat (length vals + length extra))) with (N.of_nat (length vals)) by lia.
+  rewrite !Nat2N.id, fixed_enc_app.
+  rewrite (fixed_roundtrip k vals (fixed_enc k extra) Hvs). reflexivity.
 Qed.
